@@ -21,6 +21,7 @@ TRUSTED_BASE = [
     "axioms per theorem from `#print axioms`, required ⊆ {propext, Classical.choice, Quot.sound}; no native_decide / bv_decide / sorry / user axioms (grep enforced)",
     "hand-written models in lean/DSV/Model tied to /repo by the behavioural correspondence run in this check (harness/ + dsdriver)",
     "harness/gen_tables.py (AST translator of literal tables from /repo/src into DSV/Generated/Tables.lean)",
+    "harness/gen_skeleton.py (AST translator of the call skeletons of the protocol-bearing functions of /repo/src into DSV/Generated/Skeleton.lean; the `source_*` theorems are statements about these generated lists)",
     "Lean compiler/runtime for the executable reading of the models (correspondence only)",
     "Python 3.12, pyarrow, fastavro, json as observed runtime components (contracts listed in DESIGN §4)",
 ]
@@ -136,7 +137,7 @@ def run_check(prop, tier, seed):
 
     tie_broken = []
     if build.tables_error:
-        tie_broken.append({"obligation": "generated tables (harness/gen_tables.py)", "detail": build.tables_error})
+        tie_broken.append({"obligation": "generated tables / skeletons (harness/gen_tables.py, harness/gen_skeleton.py)", "detail": build.tables_error})
     if not build.ok and not build.tables_error:
         tie_broken.append({"obligation": "lake build " + " ".join(build.failed_targets or targets), "detail": build.log[-3000:]})
     if build.ok and not audit["ok"]:
